@@ -374,7 +374,7 @@ func callerClamps(c *props.Ctx, p *c09path, S int64, w *ssa.Function, cpParam, s
 				for side, sv := range []ssa.Value{stV, enV} {
 					which := []string{"start", "end"}[side]
 					key := fmt.Sprintf("%s→%s#%s.%c", name, w.Name(), which, "XYZ"[a])
-					fv, ok := structFieldValue(sv, fields[a])
+					fv, ev, ok := rangeComponent(e, sv, fields[a], 0)
 					pos := c.P.Pos(call.Pos())
 					if !ok {
 						c.R.Undecide("RANGE-1", key, pos, "the range handed to the writer is not a struct literal with one definition per component")
@@ -400,7 +400,7 @@ func callerClamps(c *props.Ctx, p *c09path, S int64, w *ssa.Function, cpParam, s
 						good = false
 						continue
 					}
-					l0, l1 := e.lin(margs[0]), e.lin(margs[1])
+					l0, l1 := ev.lin(margs[0]), ev.lin(margs[1])
 					blockTerm := lin{T: map[baseKey]int64{{cpV, fields[a]}: S}, Off: int64(side) * S}
 					var other lin
 					switch {
@@ -508,6 +508,45 @@ func calleeName(v ssa.Value) string {
 		}
 	}
 	return v.Name()
+}
+
+// rangeComponent: the value of component f of a range struct handed to the writer, and the evaluator in whose
+// context it is to be read: a local struct literal with one definition per component, or result #i of an
+// in-package helper with a single return whose result #i is such a literal (the helper's parameters are bound
+// to the caller's arguments, so the clamp is judged in the caller's terms exactly as if it were written inline).
+func rangeComponent(e *evaluator, sv ssa.Value, f int, depth int) (ssa.Value, *evaluator, bool) {
+	if fv, ok := structFieldValue(sv, f); ok {
+		return fv, e, true
+	}
+	if depth >= 2 {
+		return nil, nil, false
+	}
+	src := structSource(sv)
+	var call *ssa.Call
+	idx := 0
+	switch t := src.(type) {
+	case *ssa.Extract:
+		call, _ = t.Tuple.(*ssa.Call)
+		idx = t.Index
+	case *ssa.Call:
+		call = t
+	}
+	if call == nil {
+		return nil, nil, false
+	}
+	callee := call.Call.StaticCallee()
+	if callee == nil || call.Parent() == nil || callee.Pkg != call.Parent().Pkg {
+		return nil, nil, false
+	}
+	ret := singleReturn(callee)
+	if ret == nil || idx >= len(ret.Results) {
+		return nil, nil, false
+	}
+	sub := e.enter(call)
+	if sub == nil {
+		return nil, nil, false
+	}
+	return rangeComponent(sub, ret.Results[idx], f, depth+1)
 }
 
 // structFieldValue: the SSA value stored into field f of the struct value sv (a load of a local literal).
